@@ -122,7 +122,13 @@ def run(ctx):
     # subjects: all malformed shapes, a seeded sample of the well-formed families, random tables
     others = sc.build(["simple", "lig", "order", "ctx", "chain", "gpos"], deep=not ctx.quick())
     rng.shuffle(others)
-    others = others[:ctx.pick(60, 600)]
+    # ligature lookups with several candidates under a non-trivial filter are always included
+    # (skipped-glyph bookkeeping is where text gets lost); the rest is a seeded sample
+    def multi_lig(c):
+        return c["family"] == "lig" and (c["ll"][0]["flags"] or c["ll"][0]["useSet"] or c["ll"][0]["attach"]) and \
+            any(len(v) >= 2 for st in c["ll"][0]["subs"] if st["k"] == "lig" for _, v in st["m"])
+    must = [c for c in others if multi_lig(c)]
+    others = must + [c for c in others if not multi_lig(c)][:ctx.pick(45, 600)]
     rnd = [sc.random_case(rng, 0, 6) for _ in range(ctx.pick(40, 400))]
     cases = []
     for c in mal + others + rnd:
